@@ -107,8 +107,9 @@ class Outcome:
             "known_findings_hit": {k: n for k, (e, n) in hit.items()},
             "machinery_errors": [str(m.get("clause")) + ": " + str(m.get("detail"))[:300] for m in self.machinery[:5]],
         }
-        with open(os.path.join(EVIDENCE, self.prop + ".json"), "w") as f:
-            json.dump(ev, f, indent=1, default=str)
+        if not os.environ.get("VERIF_NO_EVIDENCE"):     # calibration runs on scratch copies
+            with open(os.path.join(EVIDENCE, self.prop + ".json"), "w") as f:
+                json.dump(ev, f, indent=1, default=str)
         if self.machinery:
             for m in self.machinery[:5]:
                 print("MACHINERY-ERROR %s: %s" % (m.get("clause"), str(m.get("detail"))[:1500]))
